@@ -101,6 +101,13 @@ class Loops:
             a = ("sym", f"{name}.pos@{lab}", "usize")
             syms.append((a, IntV(v.pos, "usize")))
             return IterV(v.seq, Lin.atom(a))
+        if isinstance(v, SliceV):
+            # a slice variable reassigned by the loop (`rest = &rest[n..]`): the same buffer with unknown bounds
+            a1 = ("sym", f"{name}.start@{lab}", "usize")
+            a2 = ("sym", f"{name}.end@{lab}", "usize")
+            syms.append((a1, IntV(v.start, "usize")))
+            syms.append((a2, IntV(v.end, "usize")))
+            return SliceV(v.base, Lin.atom(a1), Lin.atom(a2), is_str=getattr(v, "is_str", False))
         return v
 
     def _collect_lens(self, st, frame):
@@ -141,6 +148,9 @@ class Loops:
                 self._flatten(x, f"{name}.{i}", out)
         elif isinstance(v, IterV):
             out.append((f"{name}.pos", IntV(v.pos, "usize")))
+        elif isinstance(v, SliceV):
+            out.append((f"{name}.start", IntV(v.start, "usize")))
+            out.append((f"{name}.end", IntV(v.end, "usize")))
 
     # ------------------------------------------------------------------ generic loop
     def loop(self, e, st, for_ctx=None):
@@ -174,7 +184,7 @@ class Loops:
                 v = st.env.get(key)
                 if v is None:
                     continue
-            if isinstance(v, (SliceV, CollV, DynV, FnV, Opaque)):
+            if isinstance(v, (CollV, DynV, FnV, Opaque)):
                 continue
             if key not in keys:
                 keys.append(key)
@@ -306,6 +316,24 @@ class Loops:
             int_syms = [(a, i) for a, i in int_syms if a not in closed]
         if for_ctx is not None and trial_backs and int_syms:
             self._tile_accs(for_ctx, trial_backs, int_syms, current, sym_name, base)
+        # ---- carried leaves that no iteration changes (the untouched end of a slice whose start advances, a field of a
+        #      struct that is rewritten as a whole) keep their entry value: not state of the loop at all
+        if for_ctx is None and int_syms:
+            I.quiet += 1
+            try:
+                trial0 = self._run_body(body, base.clone(), label, None)[0]
+            except Exception:
+                trial0 = []
+            finally:
+                I.quiet -= 1
+            same = {}
+            for a, init in int_syms:
+                if trial0 and all(isinstance(current(sb).get(sym_name(a)), IntV) and current(sb)[sym_name(a)].l == Lin.atom(a) for sb in trial0):
+                    same[a] = init.l
+            if same and len(same) < len(int_syms):
+                for key in keys:
+                    base.env[key] = self._subst_val(base.env[key], same)
+                int_syms = [(a, i) for a, i in int_syms if a not in same]
         # ---- candidate invariants
         cands = []
         lens = self._collect_lens(st, st.frame)
@@ -326,6 +354,12 @@ class Loops:
         for i, (a, ia) in enumerate(int_syms):
             for b, ib in int_syms[:i]:
                 cands.append(eq(Lin.atom(a) - Lin.atom(b), ia.l - ib.l))
+        # a reassigned slice stays a slice: start <= end
+        for a, ia in int_syms:
+            if a[1].split("@")[0].endswith(".start"):
+                for b, ib in int_syms:
+                    if b[1] == a[1].replace(".start@", ".end@"):
+                        cands.append(le(Lin.atom(a), Lin.atom(b)))
         # bounds the body itself compares a carried variable against (x < E on a back-edge path, E loop
         # invariant): candidates x < E and x <= E
         if for_ctx is None and int_syms:
@@ -413,6 +447,15 @@ class Loops:
                         solver.entails(sb.pc, flit(eq(cur_it.pos, want)))):
                     I.unmodelled_at(e, "the loop body advances the iterator it traverses")
                     break
+        # a havocked slice variable must still be a slice of the same buffer at every back edge
+        for key in keys:
+            v0 = base.env.get(key)
+            if isinstance(v0, SliceV) and isinstance(pre.env.get(key), SliceV):
+                for sb in backs:
+                    v1 = sb.env.get(key)
+                    if not (isinstance(v1, SliceV) and v1.base == v0.base):
+                        I.unmodelled_at(e, "a loop reassigns a slice variable to a view of another buffer")
+                        break
         rep.inv_lits = list(cands)
         rep.carried = [(a, init.l) for a, init in int_syms]
         for sb in backs:
